@@ -9,7 +9,9 @@ EXPLANATION = (
     "incoming, incoming is only called while a message exists, and upstream never returns from inside its loop (every element sees "
     "event_start); downstream calls event_end for every element; (R4) the module handler runs iff the message survived upstream; "
     "(R5) upstream/downstream are called only from the four entry points, and those only from the event handlers, the lifecycle loops "
-    "and module_restart (table exception: Spawner::terminate). Decides these necessary conditions only; not per-history exactly-once counts.")
+    "and module_restart (table exception: Spawner::terminate). "
+    '(R6, shared with C03.R3) what the handler and the elements emit during an event leaves the event buffer in program order. '
+    "Decides these necessary conditions only; not per-history exactly-once counts.")
 ASSUMPTIONS = ["events are dispatched sequentially (one Runtime::dispatch_event at a time), so brackets of one module cannot nest"]
 
 EV = 'des::net::runtime::events::'
